@@ -1,9 +1,15 @@
-(* Property C14 — ToJSON emits valid JSON that denotes the frame.
-   Part proved here: the hand written string escaper (values and column names) for EVERY byte string,
-   and the record assembly over abstract cell renderings.  Statements only; proofs are in
-   Proofs/JsonProofs.v.  The specification (RFC 8259 string reader json_parse_string, RFC 3629
-   character reader, document reader) is the second half of Model/Json.v. *)
+(* Property C14 — ToJSON emits valid JSON that denotes the frame; ReadJSON inverts it.
+   Proved here: the hand written string escaper (values and column names) for EVERY byte string, the record
+   assembly, the number cells (ints, floats through the Ryu model, NaN as null), hence the whole document
+   of every frame whose floats are finite or NaN (C14_valid), and the ReadJSON round trip (C14_readback)
+   with the float round trip as a premise (C14_full_from_ryu_interval_partial says what is missing).
+   Statements only; proofs are in Proofs/JsonProofs.v and Proofs/JsonDocProofs.v.  The specification
+   (RFC 8259 string reader json_parse_string, RFC 3629 character reader, document reader) is the second
+   half of Model/Json.v; the value of a number token (jnum_value) and the value tree (decode_doc) are in
+   Model/JsonRead.v, with the model of the cell renderers, of ToJSON of a frame and of ReadJSON. *)
 From QF Require Import Base.Prelude Model.Utf8 Model.Json Proofs.Utf8Proofs Proofs.JsonProofs.
+From QF Require Import Model.Ryu Model.Frame Model.Filter Model.Ops Model.JsonRead Proofs.JsonDocProofs.
+From QF Require Model.CsvWrite Proofs.RyuShortest.
 Local Open Scope N_scope.
 
 (* AppendQuotedString on an empty buffer: for every byte string s (no premise at all) the output is
@@ -108,5 +114,249 @@ Proof.
   apply (string_value_denotes [0x78]). vm_compute. reflexivity.
 Qed.
 
-(* NOT PROVED here: that integer / float renderings satisfy value_denotes (the number formatters are
-   other work packages), and the ReadJSON half of C14. *)
+(* ---------------------------------------------------------------- number cells
+   Every text accepted by the RFC 8259 number grammar (json_number, Model/Json.v) is read by the value
+   reader, in front of , or }, as that number token. *)
+Theorem C14_number_token (t : bytes) : json_number t = true -> value_denotes t (JNum t).
+Proof. exact (number_value_denotes t). Qed.
+Print Assumptions C14_number_token.
+Example C14_number_token_example : json_number (bs 7 0x2D31322E303334) = true.   (* -12.034 *)
+Proof. vm_compute. reflexivity. Qed.
+
+(* Int cells (strconv.AppendInt base 10 = Model/CsvWrite.v itoa): for EVERY z (no range premise, hence in
+   particular for the int64 range) the text is a number token, and the number it denotes
+   (jnum_value, Model/JsonRead.v: sign, digits of int and frac as one number, decimal exponent) is z. *)
+Theorem C14_int_token (z : Z) :
+  value_denotes (CsvWrite.itoa z) (JNum (CsvWrite.itoa z)) /\
+  jnum_value (CsvWrite.itoa z) = Some ((z <? 0)%Z, Z.abs_N z, 0%Z).
+Proof. exact (int_token z). Qed.
+Print Assumptions C14_int_token.
+
+(* Float cells: for every bit pattern that is neither NaN nor an infinity the Ryu model (AppendFloat64f on
+   an empty buffer = float_text; by the next theorem on any buffer) writes a text that is a number token
+   and denotes exactly (-1)^sign * m * 10^e for the pair (m, e) the Ryu model computed (float_decimal:
+   float64ToDecimalExactInt, else float64ToDecimal; (0, 0) for the zeros, so -0 is written -0).  The token
+   carries the exponent min(e, 0): for e > 0 the digits are those of m followed by e zeros.  That (m, e) is
+   the SHORTEST decimal that rounds to the float is property C16 and is not used here. *)
+Theorem C14_float_token (bits : N) :
+  bits < 2 ^ 64 -> f_isnan bits = false -> f_isinf bits = false ->
+  exists text m e,
+    float_text bits = Ok text /\ float_decimal bits = Ok (m, e) /\
+    value_denotes text (JNum text) /\
+    jnum_value text = Some (negb (bits / 2 ^ 63 =? 0), m * 10 ^ Z.to_N (e - Z.min e 0), Z.min e 0).
+Proof. exact (float_token bits). Qed.
+Print Assumptions C14_float_token.
+Example C14_float_token_example :      (* -3.141592653589793 and the smallest subnormal satisfy the premises *)
+  (0xC00921FB54442D18 < 2 ^ 64 /\ f_isnan 0xC00921FB54442D18 = false /\ f_isinf 0xC00921FB54442D18 = false /\
+   float_decimal 0xC00921FB54442D18 = Ok (3141592653589793, (-15)%Z)) /\
+  (f_isnan 1 = false /\ f_isinf 1 = false /\ float_decimal 1 = Ok (5, (-324)%Z)).
+Proof. vm_compute. repeat split. Qed.
+
+Theorem C14_float_text_any_buffer (bits : N) (text : bytes) :
+  bits < 2 ^ 64 -> float_text bits = Ok text ->
+  forall (g : nat -> bytes) (b : buf), exists sp,
+    AppendFloat64f g b bits = Ok {| bdata := bdata b ++ text; bspare := sp |}.
+Proof. exact (float_text_any_buffer bits text). Qed.
+Print Assumptions C14_float_text_any_buffer.
+Example C14_float_text_example : float_text 0x3FB999999999999A = Ok (bs 3 0x302E31).   (* 0.1 *)
+Proof. vm_compute. reflexivity. Qed.
+
+(* NaN (every NaN bit pattern) is written as null *)
+Theorem C14_nan_cell (bits : N) :
+  f_isnan bits = true -> cell_json (CFloat bits) = Ok s_null /\ value_denotes s_null JNull.
+Proof. intro H. cbn [cell_json]. rewrite H. split; [reflexivity|exact null_value_denotes]. Qed.
+Print Assumptions C14_nan_cell.
+Example C14_nan_cell_example : f_isnan f_nan = true /\ f_isnan 0xFFF0000000000001 = true.
+Proof. vm_compute. split; reflexivity. Qed.
+
+(* ---------------------------------------------------------------- C14_valid: the whole document of a frame
+   frame_to_json f (Model/JsonRead.v) = ToJSON of the frame: abs f read row by row through the index, every
+   cell rendered by the AppendByteStringAt of its column type, assembled by to_json (the function the
+   strings engine executes).  For every frame without Err whose floats are finite or NaN (cell_ok) and whose
+   logical table is defined (abs f = Ok t: index and enum ranks in range), ToJSON succeeds and the Coq JSON
+   reader decodes the output (decode_doc = parse_doc + token values) to one object per row, in row order,
+   with the sanitized column names as keys in column order, whose values are what the cells must denote
+   (cell_value: ints exactly, floats the Ryu decimal with sign, NaN / null strings as null, strings as their
+   sanitized code points, bools).  Duplicate or empty column names are allowed (objects are member lists). *)
+Definition C14_valid_statement : Prop :=
+  forall (f : frame) (t : table),
+    ferr f = false -> abs f = Ok t -> Forall (Forall cell_ok) (trows t) ->
+    exists out vals,
+      frame_to_json f = Ok out /\
+      omap (omap cell_value) (trows t) = Ok vals /\
+      decode_doc out = Some (map (combine (map utf8_sanitize (tnames t))) vals).
+
+Theorem C14_valid : C14_valid_statement.
+Proof. exact frame_json_valid. Qed.
+Print Assumptions C14_valid.
+
+(* a frame with all five column types and a permuted index satisfies the premises *)
+Definition C14_example_frame : frame := mkFrame
+  [ (bs 1 0x69, ICol [5%Z; (-17)%Z; 0%Z]);
+    (bs 1 0x66, FCol [0x3FB999999999999A; f_nan; 0x8000000000000000]);
+    (bs 1 0x62, BCol [true; false; true]);
+    (bs 1 0x73, SCol [None; Some (bs 2 0x6122); Some []]);
+    (bs 1 0x65, ECol [0; 255; 1] [bs 1 0x78; bs 1 0x79] true) ]
+  [2%nat; 0%nat; 1%nat] false.
+Example C14_valid_frame_example :
+  exists t, ferr C14_example_frame = false /\ abs C14_example_frame = Ok t /\ Forall (Forall cell_ok) (trows t).
+Proof.
+  eexists. split; [reflexivity|]. split; [vm_compute; reflexivity|].
+  cbn [trows]. repeat (constructor; try exact I; try (split; reflexivity)).
+Qed.
+
+(* ---------------------------------------------------------------- C14_readback: ReadJSON inverts ToJSON
+   read_json (Model/JsonRead.v) = qframe.ReadJSON(reader, ColumnOrder(names...), Enums(...)) on the value
+   tree of the Coq JSON reader: encoding/json's decoding of each record into map[string]interface{} (later
+   duplicate keys overwrite, numbers through strconv.ParseFloat = parse_float, strings as the UTF-8 of their
+   code points), jsonRecordsToData (types detected from the FIRST record, fillFloats / fillBools /
+   fillStrings), then qframe.New (Model/Ops.v new_frame, the function the frameops engine executes).
+
+   For every frame without Err that is well formed, has at least one column and one row, distinct column
+   names that are valid UTF-8 and legal (CheckName), and whose cells satisfy rb_ok:
+     ints    parse_float reads the decimal text of z as int_to_float z   (int_to_float: any function);
+     floats  finite, not NaN, and parse_float inverts the Ryu text of that float (the round trip of C16
+             together with the correct rounding of strconv.ParseFloat: a PREMISE here, see below);
+     strings and enum values valid UTF-8 (null allowed), bools anything,
+   ReadJSON of the ToJSON output, with the original column order and every enum column declared with its
+   value table (enum_conf), succeeds and its logical table has the same names, the same rows in the same
+   order with every cell equal (rb_cell: int cells are the floats int_to_float z; float cells the identical
+   bit pattern; bool, string, enum cells identical, null stays null), and the same types except int -> float.
+
+   Premises a reader may find surprising (each is needed, see the report):
+   * at least one row: a frame with columns and zero rows is written as [] and comes back as an error (the
+     column order no longer matches) or, without ColumnOrder, as a frame WITHOUT columns;
+   * valid UTF-8 in names and strings: an ill-formed byte comes back as U+FFFD (3 bytes), and two names that
+     differ only in ill-formed bytes collide into one key;
+   * no NaN in float columns: NaN is written as null; in the first row this turns the column into a string
+     column, in a later row fillFloats rejects the document;
+   * distinct names (the records are maps). *)
+Definition C14_readback_statement : Prop :=
+  forall (parse_float : bytes -> option N) (int_to_float : Z -> N) (f : frame) (t : table),
+    ferr f = false -> wf_frame f = true -> abs f = Ok t ->
+    cols f <> [] -> ix f <> [] ->
+    NoDup (col_names f) -> Forall name_ok (col_names f) ->
+    Forall (Forall (rb_ok parse_float int_to_float)) (trows t) ->
+    exists out f',
+      frame_to_json f = Ok out /\
+      read_json parse_float out (col_names f) (enum_conf (cols f)) = Ok f' /\
+      ferr f' = false /\
+      abs f' = Ok (mkTable (tnames t) (map rb_type (ttypes t)) (map (map (rb_cell int_to_float)) (trows t))).
+
+Theorem C14_readback : C14_readback_statement.
+Proof. exact readback. Qed.
+Print Assumptions C14_readback.
+
+(* a frame with all five column types, a permuted index, and a ParseFloat given by a table satisfies the
+   premises; the frame that comes back *)
+Definition C14_example_frame2 : frame := mkFrame
+  [ (bs 1 0x69, ICol [5%Z; (-17)%Z; 0%Z]);
+    (bs 1 0x66, FCol [0x3FB999999999999A; 0xC00921FB54442D18; 0x8000000000000000]);
+    (bs 1 0x62, BCol [true; false; true]);
+    (bs 1 0x73, SCol [None; Some (bs 2 0x6122); Some []]);
+    (bs 1 0x65, ECol [0; 255; 1] [bs 1 0x78; bs 1 0x79] true) ]
+  [2%nat; 0%nat; 1%nat] false.
+Definition C14_example_pf (text : bytes) : option N :=
+  assocb text [ (bs 1 0x35, 0x4014000000000000); (bs 3 0x2D3137, 0xC031000000000000); (bs 1 0x30, 0);
+                (bs 3 0x302E31, 0x3FB999999999999A); (bs 18 0x2D332E313431353932363533353839373933, 0xC00921FB54442D18);
+                (bs 2 0x2D30, 0x8000000000000000) ].
+Definition C14_example_i2f (z : Z) : N :=
+  if (z =? 5)%Z then 0x4014000000000000 else if (z =? -17)%Z then 0xC031000000000000 else 0.
+Example C14_readback_example :
+  exists t, ferr C14_example_frame2 = false /\ wf_frame C14_example_frame2 = true /\
+    abs C14_example_frame2 = Ok t /\ cols C14_example_frame2 <> [] /\ ix C14_example_frame2 <> [] /\
+    NoDup (col_names C14_example_frame2) /\ Forall name_ok (col_names C14_example_frame2) /\
+    Forall (Forall (rb_ok C14_example_pf C14_example_i2f)) (trows t).
+Proof.
+  eexists. split; [reflexivity|]. split; [vm_compute; reflexivity|]. split; [vm_compute; reflexivity|].
+  split; [discriminate|]. split; [discriminate|].
+  split; [repeat constructor; cbn [In]; intuition discriminate|].
+  split; [repeat constructor|].
+  cbn [trows].
+  repeat (constructor;
+          try exact I; try reflexivity;
+          try (split; [reflexivity|split; [reflexivity|split; [reflexivity|
+                 let text := fresh in let H := fresh in intros text H; vm_compute in H; inversion H; reflexivity]]])).
+Qed.
+Example C14_readback_example_run :
+  match frame_to_json C14_example_frame2 with
+  | Ok out => read_json C14_example_pf out (col_names C14_example_frame2) (enum_conf (cols C14_example_frame2))
+  | _ => Fail
+  end
+  = Ok (mkFrame
+      [ (bs 1 0x69, FCol [0; 0x4014000000000000; 0xC031000000000000]);
+        (bs 1 0x66, FCol [0x8000000000000000; 0x3FB999999999999A; 0xC00921FB54442D18]);
+        (bs 1 0x62, BCol [true; true; false]);
+        (bs 1 0x73, SCol [Some []; None; Some (bs 2 0x6122)]);
+        (bs 1 0x65, ECol [1; 0; 255] [bs 1 0x78; bs 1 0x79] true) ]
+      [0%nat; 1%nat; 2%nat] false).
+Proof. vm_compute. reflexivity. Qed.
+
+(* the premises are needed: zero rows lose the columns; a NaN in a later row is rejected *)
+Example C14_readback_zero_rows :
+  let f := mkFrame [(bs 1 0x61, ICol [1%Z])] [] false in
+  match frame_to_json f with
+  | Ok out => read_json C14_example_pf out (col_names f) []
+  | _ => Fail
+  end = Ok (mkFrame [] [] true).
+Proof. vm_compute. reflexivity. Qed.
+Example C14_readback_nan_rejected :
+  let f := mkFrame [(bs 1 0x66, FCol [0x3FB999999999999A; f_nan])] [0%nat; 1%nat] false in
+  match frame_to_json f with
+  | Ok out => read_json C14_example_pf out (col_names f) []
+  | _ => Fail
+  end = Ok (mkFrame [] [] true).
+Proof. vm_compute. reflexivity. Qed.
+
+(* ---------------------------------------------------------------- what is NOT proved
+   The float clause of rb_ok is a premise: parse_float (text Ryu wrote for b) = b.  It follows from
+   (a) ryu_in_interval: the decimal of the Ryu model lies in the rounding interval of the float (part of
+   C16_shortest_full_statement, Properties/C16.v, which is a Definition there) and (b) strconv.ParseFloat
+   rounding correctly, specified with the interval test of the C16 certificate checker
+   (Proofs/RyuShortest.v sc_in).  C14_full_statement below is the property text with (b) as the only
+   premise about ParseFloat; it is proved from (a) (C14_full_from_ryu_interval_partial); (a) itself is
+   NOT proved (the ryu engine certifies it on every sampled float). *)
+(* parse_float_correct and ryu_in_interval are defined in Proofs/JsonDocProofs.v:
+     parse_float_correct pf : a text denoting +-m * 10^k is read as the float in whose rounding interval
+                              m * 10^k lies (sc_in), zero with its sign;
+     ryu_in_interval        : for every bit pattern, the decimal float_decimal computes lies in the
+                              rounding interval of that float (weaker than C16's shortestness). *)
+Definition C14_full_statement : Prop :=
+  C14_valid_statement /\
+  forall (parse_float : bytes -> option N) (int_to_float : Z -> N) (f : frame) (t : table),
+    parse_float_correct parse_float ->
+    ferr f = false -> wf_frame f = true -> abs f = Ok t ->
+    cols f <> [] -> ix f <> [] ->
+    NoDup (col_names f) -> Forall name_ok (col_names f) ->
+    Forall (Forall (fun c =>
+              match c with
+              | CInt z => parse_float (CsvWrite.itoa z) = Some (int_to_float z)
+              | CFloat b => b < 2 ^ 64 /\ f_isnan b = false /\ f_isinf b = false
+              | CStr (Some s) | CEnum (Some s) => utf8_valid s = true
+              | _ => True
+              end)) (trows t) ->
+    exists out f',
+      frame_to_json f = Ok out /\
+      read_json parse_float out (col_names f) (enum_conf (cols f)) = Ok f' /\
+      ferr f' = false /\
+      abs f' = Ok (mkTable (tnames t) (map rb_type (ttypes t)) (map (map (rb_cell int_to_float)) (trows t))).
+
+(* proved: the full statement follows from the single remaining obligation about the Ryu model *)
+Theorem C14_full_from_ryu_interval_partial : ryu_in_interval -> C14_full_statement.
+Proof.
+  intro HR. split; [exact frame_json_valid|].
+  intros pf i2f f t HP. exact (readback_from_spec pf i2f f t HP HR).
+Qed.
+Print Assumptions C14_full_from_ryu_interval_partial.
+(* the premise is satisfiable on samples: the decimal of 0.1 and of the smallest subnormal lie in the interval *)
+Example C14_ryu_interval_example :
+  (exists fd, decode_float 0x3FB999999999999A = Some fd /\ float_decimal 0x3FB999999999999A = Ok (1, (-1)%Z) /\
+              RyuShortest.sc_in fd (-1) 1 = true) /\
+  (exists fd, decode_float 1 = Some fd /\ float_decimal 1 = Ok (5, (-324)%Z) /\
+              RyuShortest.sc_in fd (-324) 5 = true).
+Proof. split; eexists; (split; [vm_compute; reflexivity|]); split; vm_compute; reflexivity. Qed.
+
+(* Also not covered: ReadJSON without ColumnOrder (columns come back sorted by name), documents that
+   ToJSON does not write (white space, nested values: outside the Coq reader), and the correspondence of
+   frame_to_json / read_json with the implementation is by composition of executed parts (to_json,
+   append_quoted_string, AppendFloat64f, itoa, abs, new_frame), not by an engine case of their own. *)
